@@ -1,9 +1,21 @@
 import MM.Props.Exhaustive
 import MM.Props.Greedy
 import MM.Props.C04Series
+import MM.Props.DiagTests
 #print axioms MM.Search.C04_score_of_design
 #print axioms MM.Search.C04_greedy_score
 #print axioms MM.Search.exhaustive_sub_evaluated
 #print axioms MM.Data.C04_series
 #print axioms MM.Data.C04_series_length
 #print axioms MM.Data.C04_window
+#print axioms MM.Numeric.corr_abs_le_one
+#print axioms MM.Numeric.dwStat_range
+#print axioms MM.Numeric.bbBounds_length
+#print axioms MM.Numeric.bbBounds_nonneg
+#print axioms MM.Numeric.bbBounds_symm
+#print axioms MM.Numeric.bbOk_scale
+#print axioms MM.Numeric.dwStat_scale
+#print axioms MM.Numeric.aaTest_contains_zero
+#print axioms MM.Numeric.aaTest_verdict
+#print axioms MM.Numeric.aaTest_interval
+#print axioms MM.Numeric.float_order_lt
